@@ -90,6 +90,8 @@ pub enum Op {
     /// read whatever the listener has right now (after a round trip everything sent before is there)
     ReadReturns,
     ReadConfirms,
+    /// read the receivers of listeners that were replaced (kept by the harness to see them disconnect)
+    ReadOld,
     AckAll,
     NackAll { requeue: bool },
     /// ack a kept delivery through another channel of the same thread: must panic
@@ -147,6 +149,8 @@ pub enum OpResult {
     Returns(Vec<ReturnMsg>, bool),
     Confirms(Vec<(bool, u64, bool)>, bool),
     Blocked(Vec<Option<String>>, bool),
+    /// per replaced listener, in order of replacement: (items, disconnected)
+    OldListeners { confirms: Vec<(Vec<(bool, u64, bool)>, bool)>, returns: Vec<(Vec<ReturnMsg>, bool)> },
     ChannelId(u16),
     Panicked(String),
     Skipped,
@@ -328,6 +332,8 @@ pub struct ChanCtx {
     pub closed: bool,
     pub returns: Option<Receiver<Return>>,
     pub confirms: Option<Receiver<Confirm>>,
+    pub old_returns: Vec<Receiver<Return>>,
+    pub old_confirms: Vec<Receiver<Confirm>>,
     pub kept: Vec<Delivery>,
 }
 
@@ -336,7 +342,7 @@ unsafe impl Send for ChanCtx {}
 impl ChanCtx {
     pub fn new(ch: Channel) -> ChanCtx {
         let id = ch.channel_id();
-        ChanCtx { ptr: Box::into_raw(Box::new(ch)), id, closed: false, returns: None, confirms: None, kept: Vec::new() }
+        ChanCtx { ptr: Box::into_raw(Box::new(ch)), id, closed: false, returns: None, confirms: None, old_returns: Vec::new(), old_confirms: Vec::new(), kept: Vec::new() }
     }
     pub fn chan(&self) -> &'static Channel {
         unsafe { &*self.ptr }
@@ -753,14 +759,18 @@ impl WorkerCtx {
             }
             Op::ListenReturns => match ch.listen_for_returns() {
                 Ok(rx) => {
-                    self.chans[slot].returns = Some(rx);
+                    if let Some(old) = self.chans[slot].returns.replace(rx) {
+                        self.chans[slot].old_returns.push(old);
+                    }
                     OpResult::Unit
                 }
                 Err(e) => OpResult::Err(err_string(&e)),
             },
             Op::ListenConfirms => match ch.listen_for_publisher_confirms() {
                 Ok(rx) => {
-                    self.chans[slot].confirms = Some(rx);
+                    if let Some(old) = self.chans[slot].confirms.replace(rx) {
+                        self.chans[slot].old_confirms.push(old);
+                    }
                     OpResult::Unit
                 }
                 Err(e) => OpResult::Err(err_string(&e)),
@@ -811,6 +821,42 @@ impl WorkerCtx {
                     return OpResult::Skipped;
                 }
                 OpResult::Confirms(v, disc)
+            }
+            Op::ReadOld => {
+                let mut confirms = Vec::new();
+                for rx in &self.chans[slot].old_confirms {
+                    let mut v = Vec::new();
+                    let mut disc = false;
+                    loop {
+                        match rx.try_recv() {
+                            Ok(Confirm::Ack(p)) => v.push((true, p.delivery_tag, p.multiple)),
+                            Ok(Confirm::Nack(p)) => v.push((false, p.delivery_tag, p.multiple)),
+                            Err(TryRecvError::Empty) => break,
+                            Err(TryRecvError::Disconnected) => {
+                                disc = true;
+                                break;
+                            }
+                        }
+                    }
+                    confirms.push((v, disc));
+                }
+                let mut returns = Vec::new();
+                for rx in &self.chans[slot].old_returns {
+                    let mut v = Vec::new();
+                    let mut disc = false;
+                    loop {
+                        match rx.try_recv() {
+                            Ok(r) => v.push(ReturnMsg { reply_code: r.reply_code, reply_text: r.reply_text, exchange: r.exchange, routing_key: r.routing_key, properties: r.properties, body: r.content }),
+                            Err(TryRecvError::Empty) => break,
+                            Err(TryRecvError::Disconnected) => {
+                                disc = true;
+                                break;
+                            }
+                        }
+                    }
+                    returns.push((v, disc));
+                }
+                OpResult::OldListeners { confirms, returns }
             }
             Op::AckAll => unit(ch.ack_all()),
             Op::NackAll { requeue } => unit(ch.nack_all(*requeue)),
